@@ -233,7 +233,8 @@ PROPS = {
                          "index form (convert_tree + search_node) = walk of the file's tree by node id; yes -> second child, no -> first",
                          "from_linear layout: means | variances | voicing weight", "engine defaults = header values",
                          "every Gaussian selection can hand to synthesis is one of the file's PDFs, entry id-1 of the tree whose declared state matches, with the announced layout",
-                         "an accepted, forward-referencing, non-empty tree ends in a PDF id for every label"],
+                         "an accepted, forward-referencing, non-empty tree ends in a PDF id for every label",
+                         "READ-BACK: little-endian words, a PDF (means | variances | voicing weight), the whole PDF block (any number of trees / PDFs), window rows, header numbers and byte ranges are read back exactly as a writer wrote them (bit for bit for the float32 entries)"],
         test_clauses=["the byte-level grammar of the reader vs the loader (same files parsed by both)", "jlabel-question's matcher agrees with wildcard matching on the label text",
                       "f32 -> f64 widening exact (bitwise comparison)"],
         assumptions=["labels are well-formed Open JTalk labels in canonical text form"],
